@@ -155,6 +155,25 @@ pub(crate) fn handle_submit(
             if !job.is_open() {
                 return ToClientMessage::SubmitResponse(SubmitResponse::JobNotOpened);
             }
+            // A new task cannot depend on a task that has already failed or was canceled;
+            // the scheduler no longer knows such a task and would consider the dependency
+            // as fulfilled.
+            if let JobTaskDescription::Graph { tasks, .. } = &message.submit_desc.task_desc {
+                for dep_id in tasks.iter().flat_map(|t| t.task_deps.iter()) {
+                    if let Some(info) = job.tasks.get(dep_id)
+                        && matches!(
+                            info.state,
+                            JobTaskState::Failed { .. }
+                                | JobTaskState::Canceled { .. }
+                                | JobTaskState::Aborted { .. }
+                        )
+                    {
+                        return ToClientMessage::SubmitResponse(
+                            SubmitResponse::InvalidDependencies(*dep_id),
+                        );
+                    }
+                }
+            }
             match &mut message.submit_desc.task_desc {
                 JobTaskDescription::Array { ids, entries, .. } => {
                     if ids.is_empty() {
